@@ -106,11 +106,13 @@ Qed.
 (* ------------------------------------------------------------------ the loops, no cancellation *)
 
 (* the specification of both loops: after t consecutive failures the next attempt is preceded by
-   wait_after t, every scheduled behaviour is attempted, a success zeroes the count *)
+   wait_after t, every scheduled behaviour is attempted, a success zeroes the count; a connection
+   that the server keeps open is where the run rests (the client stays connected) *)
 Fixpoint spec (l : loopk) (c : cfg) (t : nat) (sch : list sbeh) : list event :=
   match sch with
   | [] => []
-  | ab :: r => mkev (wait_after c t) (outcome_of l ab) :: spec l c (if fails l ab then S t else 0%nat) r
+  | ab :: r => mkev (wait_after c t) (outcome_of l ab)
+               :: (if keeps l ab then [] else spec l c (if fails l ab then S t else 0%nat) r)
   end.
 
 (* how the concrete state encodes "t consecutive failures so far" *)
@@ -134,14 +136,13 @@ Lemma run_spec l c sch : forall i t s carry,
   inv l c t s carry -> run l c i s carry sch None = spec l c t sch.
 Proof.
   induction sch as [|[a b] r IH]; intros i t s carry [Hc Hi]; [reflexivity|].
-  cbn [run spec]. rewrite phase_here_none. cbn [seen_at_head]. rewrite Hc.
+  cbn [run spec]. rewrite phase_here_none. cbn [seen_at_head blocked]. rewrite Hc.
   destruct l.
   - (* Reconnect *)
     destruct Hi as [Ha Hcarry]. cbn [snd iter_plain].
     unfold fails, outcome_of. cbn [snd].
-    destruct (is_success (dial_outcome b None)) eqn:Es; cbn [negb app]; subst carry.
-    + f_equal. apply IH. unfold inv; cbn; auto.
-    + f_equal. apply IH. unfold inv; cbn. rewrite Ha. auto.
+    destruct (is_success (dial_outcome b None)) eqn:Es; cbn [negb app]; subst carry; f_equal;
+      destruct (keeps LPlain (a, b)); try reflexivity; apply IH; unfold inv; cbn; rewrite ?Ha; auto.
   - (* ReconnectAuth *)
     cbn [iter_auth]. unfold fails, outcome_of. cbn [fst snd].
     assert (Hw : (if wait s then dur c (attempt s) else 0) = wait_after c t).
@@ -151,37 +152,62 @@ Proof.
     destruct (access_result a) as [f|] eqn:Ea.
     + assert (Hf : is_success f = false) by (destruct a; inversion Ea; reflexivity).
       rewrite Hf. cbn [negb app]. rewrite Hw. f_equal.
+      destruct (keeps LAuth (a, b)); [reflexivity|].
       apply IH. unfold inv; cbn. rewrite Hatt. auto.
-    + destruct (is_success (dial_outcome b None)) eqn:Es; cbn [negb app]; rewrite Hw; f_equal.
-      * apply IH. unfold inv; cbn; auto.
-      * apply IH. unfold inv; cbn. rewrite Hatt. auto.
+    + destruct (is_success (dial_outcome b None)) eqn:Es; cbn [negb app]; rewrite Hw; f_equal;
+        destruct (keeps LAuth (a, b)); try reflexivity; apply IH; unfold inv; cbn; rewrite ?Hatt; auto.
 Qed.
 
 Lemma client_spec l c sch : client l c sch None = spec l c 0 sch.
 Proof. apply run_spec, inv_init. Qed.
 
-Lemma spec_length l c sch : forall t, length (spec l c t sch) = length sch.
-Proof. induction sch as [|ab r IH]; intros t; cbn; [reflexivity | rewrite IH; reflexivity]. Qed.
+Definition no_keep (l : loopk) (sch : list sbeh) : Prop := Forall (fun ab => keeps l ab = false) sch.
 
-Lemma spec_outcomes l c sch : forall t, map ev_out (spec l c t sch) = map (outcome_of l) sch.
-Proof. induction sch as [|ab r IH]; intros t; cbn; [reflexivity | rewrite IH; reflexivity]. Qed.
+Lemma keeps_not_fails l ab : keeps l ab = true -> fails l ab = false.
+Proof.
+  destruct ab as [a b]. unfold keeps, fails, outcome_of. cbn [fst snd]. destruct l.
+  - destruct b; cbn; congruence.
+  - destruct (access_result a); [congruence|]. destruct b; cbn; congruence.
+Qed.
+
+Lemma fails_not_keeps l ab : fails l ab = true -> keeps l ab = false.
+Proof. intros H. destruct (keeps l ab) eqn:E; [|reflexivity]. apply keeps_not_fails in E. congruence. Qed.
+
+Lemma all_fail_no_keep l fs : Forall (fun ab => fails l ab = true) fs -> no_keep l fs.
+Proof. induction 1; constructor; auto using fails_not_keeps. Qed.
+
+Lemma spec_length l c sch : no_keep l sch -> forall t, length (spec l c t sch) = length sch.
+Proof. induction 1 as [|ab r Hab _ IH]; intros t; cbn; [reflexivity | rewrite Hab, IH; reflexivity]. Qed.
+
+Lemma spec_outcomes l c sch : no_keep l sch -> forall t, map ev_out (spec l c t sch) = map (outcome_of l) sch.
+Proof. induction 1 as [|ab r Hab _ IH]; intros t; cbn; [reflexivity | rewrite Hab, IH; reflexivity]. Qed.
 
 Definition trail (l : loopk) (t : nat) (pre : list sbeh) : nat :=
   fold_left (fun t ab => if fails l ab then S t else 0%nat) pre t.
 
-Lemma spec_app l c pre : forall t post,
+Lemma spec_app l c pre : no_keep l pre -> forall t post,
   spec l c t (pre ++ post) = spec l c t pre ++ spec l c (trail l t pre) post.
 Proof.
-  induction pre as [|ab r IH]; intros t post; [reflexivity|].
-  cbn [app spec]. rewrite IH. reflexivity.
+  induction 1 as [|ab r Hab _ IH]; intros t post; [reflexivity|].
+  cbn [app spec]. rewrite Hab, IH. reflexivity.
 Qed.
 
-Lemma spec_nth l c pre ab rest t :
+Lemma spec_nth l c pre ab rest t : no_keep l pre ->
   nth_error (spec l c t (pre ++ ab :: rest)) (length pre) =
   Some (mkev (wait_after c (trail l t pre)) (outcome_of l ab)).
 Proof.
-  rewrite spec_app. rewrite nth_error_app2 by (rewrite spec_length; lia).
-  rewrite spec_length, Nat.sub_diag. reflexivity.
+  intros H. rewrite spec_app by assumption. rewrite nth_error_app2 by (rewrite spec_length by assumption; lia).
+  rewrite spec_length by assumption. rewrite Nat.sub_diag. reflexivity.
+Qed.
+
+(* a connection the server keeps open is where the client rests: nothing scheduled after it is
+   attempted while the context is live *)
+Lemma kept_connection_rests l c pre ab rest : no_keep l pre -> keeps l ab = true ->
+  client l c (pre ++ ab :: rest) None = client l c (pre ++ [ab]) None /\
+  length (client l c (pre ++ ab :: rest) None) = S (length pre).
+Proof.
+  intros Hp Hk. rewrite !client_spec, !spec_app by assumption. cbn [spec]. rewrite Hk.
+  split; [reflexivity|]. rewrite app_length, spec_length by assumption. cbn. lia.
 Qed.
 
 Lemma trail_app l t xs ys : trail l t (xs ++ ys) = trail l (trail l t xs) ys.
@@ -212,22 +238,22 @@ Proof.
 Qed.
 
 (* every scheduled behaviour is attempted, whatever the failures before it *)
-Lemma retries_forever l c sch :
+Lemma retries_forever l c sch : no_keep l sch ->
   length (client l c sch None) = length sch /\
   map ev_out (client l c sch None) = map (outcome_of l) sch.
-Proof. rewrite client_spec. split; [apply spec_length | apply spec_outcomes]. Qed.
+Proof. intros H. rewrite client_spec. split; [apply spec_length | apply spec_outcomes]; assumption. Qed.
 
-Lemma attempt_after_any_prefix l c pre ab rest :
+Lemma attempt_after_any_prefix l c pre ab rest : no_keep l pre ->
   exists e, nth_error (client l c (pre ++ ab :: rest) None) (length pre) = Some e /\
             ev_out e = outcome_of l ab /\
             ev_wait e = wait_after c (trailing_failures l pre).
 Proof.
-  rewrite client_spec, spec_nth. eexists; split; [reflexivity|]. split; reflexivity.
+  intros H. rewrite client_spec, spec_nth by assumption. eexists; split; [reflexivity|]. split; reflexivity.
 Qed.
 
 (* after j consecutive failures (following a success or the start) the wait is min(Max, Min*2^(j-1)) *)
 Lemma waits_grow_and_cap l c pre fs ab rest :
-  good_cfg c -> fresh l pre -> Forall (fun x => fails l x = true) fs ->
+  good_cfg c -> no_keep l pre -> fresh l pre -> Forall (fun x => fails l x = true) fs ->
   exists e, nth_error (client l c (pre ++ fs ++ ab :: rest) None) (length pre + length fs) = Some e /\
             ev_out e = outcome_of l ab /\
             ev_wait e = match length fs with
@@ -235,8 +261,9 @@ Lemma waits_grow_and_cap l c pre fs ab rest :
                         | S j => Z.min (cmax c) (cmin c * 2 ^ Z.of_nat j)
                         end.
 Proof.
-  intros Hc Hp Hf.
-  destruct (attempt_after_any_prefix l c (pre ++ fs) ab rest) as [e [Hn [Ho Hw]]].
+  intros Hc Hnk Hp Hf.
+  assert (Hnk2 : no_keep l (pre ++ fs)) by (apply Forall_app; split; [assumption | apply all_fail_no_keep; assumption]).
+  destruct (attempt_after_any_prefix l c (pre ++ fs) ab rest Hnk2) as [e [Hn [Ho Hw]]].
   rewrite <- app_assoc, app_length in Hn. exists e. split; [exact Hn|]. split; [exact Ho|].
   rewrite Hw, trailing_failures_streak by assumption.
   destruct (length fs); [reflexivity|]. cbn [wait_after]. apply dur_good; assumption.
@@ -295,21 +322,22 @@ Qed.
 (* first retry after an established connection: immediate; the one after that (if the first
    failed): Min *)
 Lemma reset_after_success l c p ok f nxt rest :
-  good_cfg c -> fails l ok = false -> fails l f = true ->
+  good_cfg c -> no_keep l p -> keeps l ok = false -> fails l ok = false -> fails l f = true ->
   (exists e, nth_error (client l c (p ++ ok :: f :: nxt :: rest) None) (S (length p)) = Some e /\
              ev_wait e = 0 /\ ev_out e = outcome_of l f) /\
   (exists e, nth_error (client l c (p ++ ok :: f :: nxt :: rest) None) (S (S (length p))) = Some e /\
              ev_wait e = cmin c /\ ev_out e = outcome_of l nxt).
 Proof.
-  intros Hc Hok Hf.
+  intros Hc Hnp Hnk Hok Hf.
   assert (Hfresh : fresh l (p ++ [ok])) by (right; exists p, ok; auto).
+  assert (Hnk2 : no_keep l (p ++ [ok])) by (apply Forall_app; split; [assumption | constructor; [assumption | constructor]]).
   split.
-  - destruct (waits_grow_and_cap l c (p ++ [ok]) [] f (nxt :: rest) Hc Hfresh (Forall_nil _)) as [e [Hn [Ho Hw]]].
+  - destruct (waits_grow_and_cap l c (p ++ [ok]) [] f (nxt :: rest) Hc Hnk2 Hfresh (Forall_nil _)) as [e [Hn [Ho Hw]]].
     rewrite <- app_assoc in Hn. cbn [app length] in Hn. rewrite app_length in Hn. cbn [length] in Hn.
     replace (length p + 1 + 0)%nat with (S (length p)) in Hn by lia.
     exists e. auto.
   - assert (Hfs : Forall (fun x => fails l x = true) [f]) by (constructor; [exact Hf | constructor]).
-    destruct (waits_grow_and_cap l c (p ++ [ok]) [f] nxt rest Hc Hfresh Hfs) as [e [Hn [Ho Hw]]].
+    destruct (waits_grow_and_cap l c (p ++ [ok]) [f] nxt rest Hc Hnk2 Hfresh Hfs) as [e [Hn [Ho Hw]]].
     rewrite <- app_assoc in Hn. cbn [app length] in Hn. rewrite app_length in Hn. cbn [length] in Hn.
     replace (length p + 1 + 1)%nat with (S (S (length p))) in Hn by lia.
     exists e. split; [exact Hn|]. split; [|exact Ho].
@@ -324,7 +352,7 @@ Lemma accept_drop_never_waits l c sch :
 Proof.
   rewrite client_spec.
   induction 1 as [|ab r Hab _ IH]; cbn [spec]; constructor; [reflexivity|].
-  rewrite Hab. exact IH.
+  rewrite Hab. destruct (keeps l ab); [constructor | exact IH].
 Qed.
 
 (* ------------------------------------------------------------------ cancellation *)
@@ -375,17 +403,18 @@ Lemma run_cancel_length l c ci p sch : forall i s carry,
 Proof.
   induction sch as [|ab r IH]; intros i s carry Hi Hc; [cbn; lia|].
   cbn [run]. destruct (Nat.eq_dec i ci) as [->|Hne].
-  - rewrite phase_here_eq.
+  - rewrite phase_here_eq. cbn [blocked].
     destruct (seen_at_head l (Some p)); cbn [stop cancelled]; [cbn; lia|]. rewrite Hc.
     pose proof (iter_cancel_stops l c s carry ab p) as H.
     destruct (match l with LPlain => iter_plain c s carry (snd ab) (Some p) | LAuth => iter_auth c s ab (Some p) end)
       as [[evs s1] carry1]. destruct H as [Hs1 Hlen].
     rewrite run_cancelled by assumption. rewrite app_nil_r. lia.
-  - rewrite phase_here_neq by assumption. cbn [seen_at_head]. rewrite Hc.
+  - rewrite phase_here_neq by assumption. cbn [seen_at_head blocked]. rewrite Hc.
     pose proof (iter_nocancel_one l c s carry ab Hc) as H.
     destruct (match l with LPlain => iter_plain c s carry (snd ab) None | LAuth => iter_auth c s ab None end)
       as [[evs s1] carry1]. destruct H as [Hs1 Hlen].
-    rewrite app_length, Hlen. specialize (IH (S i) s1 carry1 ltac:(lia) Hs1). lia.
+    rewrite app_length, Hlen. destruct (keeps l ab); [cbn [length]; lia|].
+    specialize (IH (S i) s1 carry1 ltac:(lia) Hs1). lia.
 Qed.
 
 (* a cancellation observed at the loop head or during the backoff wait: attempt ci never starts *)
@@ -399,16 +428,17 @@ Proof.
   intros i s carry Hp; revert i s carry.
   induction sch as [|ab r IH]; intros i s carry Hi Hc; [cbn; lia|].
   cbn [run]. destruct (Nat.eq_dec i ci) as [->|Hne].
-  - rewrite phase_here_eq.
+  - rewrite phase_here_eq. cbn [blocked].
     destruct p; try discriminate.
     + cbn [seen_at_head stop cancelled]. cbn. lia.
     + destruct l; cbn [seen_at_head stop cancelled]; [cbn; lia|]. rewrite Hc.
       destruct ab as [a b]. cbn [iter_auth app]. rewrite run_cancelled by reflexivity. cbn. lia.
-  - rewrite phase_here_neq by assumption. cbn [seen_at_head]. rewrite Hc.
+  - rewrite phase_here_neq by assumption. cbn [seen_at_head blocked]. rewrite Hc.
     pose proof (iter_nocancel_one l c s carry ab Hc) as H.
     destruct (match l with LPlain => iter_plain c s carry (snd ab) None | LAuth => iter_auth c s ab None end)
       as [[evs s1] carry1]. destruct H as [Hs1 Hlen].
-    rewrite app_length, Hlen. specialize (IH (S i) s1 carry1 ltac:(lia) Hs1). lia.
+    rewrite app_length, Hlen. destruct (keeps l ab); [cbn [length]; lia|].
+    specialize (IH (S i) s1 carry1 ltac:(lia) Hs1). lia.
 Qed.
 
 (* attempts before the cancellation are not affected by it *)
@@ -418,11 +448,12 @@ Lemma run_cancel_prefix l c ci p sch : forall i s carry,
 Proof.
   induction sch as [|ab r IH]; intros i s carry Hi Hc; [reflexivity|].
   destruct (Nat.eq_dec i ci) as [->|Hne]; [rewrite Nat.sub_diag; reflexivity|].
-  cbn [run]. rewrite phase_here_neq by assumption. rewrite phase_here_none. cbn [seen_at_head]. rewrite Hc.
+  cbn [run]. rewrite phase_here_neq by assumption. rewrite phase_here_none. cbn [seen_at_head blocked]. rewrite Hc.
   pose proof (iter_nocancel_one l c s carry ab Hc) as H.
   destruct (match l with LPlain => iter_plain c s carry (snd ab) None | LAuth => iter_auth c s ab None end)
     as [[evs s1] carry1]. destruct H as [Hs1 Hlen].
   destruct evs as [|e [|e' evs]]; try discriminate. cbn [app].
+  destruct (keeps l ab); [reflexivity|].
   replace (ci - i)%nat with (S (ci - S i)) by lia. cbn [firstn]. f_equal.
   apply IH; [lia | exact Hs1].
 Qed.
@@ -437,15 +468,16 @@ Proof.
   induction sch as [|ab r IH]; intros i s carry e Hi Hc Hn.
   - destruct (ci - i)%nat; discriminate.
   - cbn [run] in Hn. destruct (Nat.eq_dec i ci) as [->|Hne].
-    + rewrite phase_here_eq in Hn. cbn [seen_at_head] in Hn. rewrite Hc in Hn.
+    + rewrite phase_here_eq in Hn. cbn [seen_at_head blocked] in Hn. rewrite Hc in Hn.
       destruct ab as [a b]. cbn [iter_auth] in Hn. rewrite Nat.sub_diag in Hn.
       cbn [app nth_error] in Hn. inversion Hn; subst e. cbn [ev_out].
       destruct a; reflexivity.
-    + rewrite phase_here_neq in Hn by assumption. cbn [seen_at_head] in Hn. rewrite Hc in Hn.
+    + rewrite phase_here_neq in Hn by assumption. cbn [seen_at_head blocked] in Hn. rewrite Hc in Hn.
       pose proof (iter_nocancel_one LAuth c s carry ab Hc) as H.
       destruct (iter_auth c s ab None) as [[evs s1] carry1]. destruct H as [Hs1 Hlen].
       destruct evs as [|e0 [|e' evs]]; try discriminate. cbn [app] in Hn.
       replace (ci - i)%nat with (S (ci - S i)) in Hn by lia. cbn [nth_error] in Hn.
+      destruct (keeps LAuth ab); [destruct (ci - S i)%nat; discriminate|].
       apply (IH (S i) s1 carry1 e); [lia | exact Hs1 | exact Hn].
 Qed.
 
@@ -466,6 +498,77 @@ Lemma cancel_during_access_no_ws c sch ci e :
 Proof.
   intros H. apply (run_cancel_access_no_ws c ci sch 0%nat init 0 e); [lia | reflexivity |].
   rewrite Nat.sub_0_r. exact H.
+Qed.
+
+(* cancelled while connected: Dial writes a close frame and closes the TCP connection whether or
+   not the peer answers (a silent peer cannot keep the client from closing and returning) *)
+Lemma cancel_closes_connection : forall answers, reaches_close answers dial_on_cancel = true.
+Proof. intros []; reflexivity. Qed.
+
+(* ... whereas a version that first waited for the peer's answer would hang on a silent peer *)
+Lemma awaiting_the_peer_would_hang : reaches_close false [DSendClose; DAwaitPeer; DCloseConn] = false.
+Proof. reflexivity. Qed.
+
+(* a cancellation while the server keeps the connection open ends the run with that attempt *)
+Lemma cancel_ends_kept_connection l c pre ab rest j :
+  no_keep l pre -> keeps l ab = true ->
+  length (client l c (pre ++ ab :: rest) (Some (length pre, CConn j))) = S (length pre) /\
+  exists e, nth_error (client l c (pre ++ ab :: rest) (Some (length pre, CConn j))) (length pre) = Some e /\
+            is_success (ev_out e) = true.
+Proof.
+  intros Hp Hk. unfold client.
+  assert (Hgen : forall pre i t s carry, no_keep l pre -> inv l c t s carry ->
+            run l c i s carry (pre ++ ab :: rest) (Some ((i + length pre)%nat, CConn j)) =
+            spec l c t pre ++
+            (let t' := trail l t pre in
+             [mkev (wait_after c t') (match l with
+                                     | LPlain => dial_outcome (snd ab) (Some (CConn j))
+                                     | LAuth => dial_outcome (snd ab) (Some (CConn j))
+                                     end)])).
+  { clear pre Hp. induction pre as [|x pre IH]; intros i t s carry Hnp [Hc Hi].
+    - cbn [app length spec trail fold_left]. rewrite Nat.add_0_r. cbn [run]. rewrite phase_here_eq.
+      cbn [seen_at_head blocked]. rewrite Hc. destruct ab as [a b].
+      unfold keeps in Hk. destruct l; cbn [snd fst] in *.
+      + destruct Hi as [Ha Hcarry]. cbn [iter_plain]. rewrite run_cancelled.
+        * subst carry. reflexivity.
+        * destruct (is_success (dial_outcome b (Some (CConn j)))); reflexivity.
+      + cbn [iter_auth]. destruct (access_result a) eqn:Ea; [discriminate|].
+        assert (Hw : (if wait s then dur c (attempt s) else 0) = wait_after c t).
+        { destruct t; destruct Hi as [Hw Ha]; rewrite Hw; [reflexivity | rewrite Ha; reflexivity]. }
+        rewrite Hw. rewrite run_cancelled; [reflexivity|].
+        destruct (is_success (dial_outcome b (Some (CConn j)))); reflexivity.
+    - inversion Hnp as [|? ? Hx Hnp']; subst.
+      cbn [app length]. replace (i + S (length pre))%nat with (S i + length pre)%nat by lia.
+      cbn [run]. rewrite phase_here_neq by lia. cbn [seen_at_head blocked]. rewrite Hc, Hx.
+      pose proof (run_spec l c [x] i t s carry (conj Hc Hi)) as Hone.
+      cbn [run spec] in Hone. rewrite phase_here_none in Hone. cbn [seen_at_head blocked] in Hone.
+      rewrite Hc, Hx in Hone.
+      destruct (match l with LPlain => iter_plain c s carry (snd x) None | LAuth => iter_auth c s x None end)
+        as [[evs s1] carry1] eqn:Eit.
+      cbn [run] in Hone. rewrite app_nil_r in Hone. subst evs.
+      cbn [spec app]. rewrite Hx. f_equal.
+      assert (Hinv : inv l c (if fails l x then S t else 0%nat) s1 carry1).
+      { clear IH. destruct x as [xa xb]. unfold fails, outcome_of. cbn [fst snd].
+        destruct l; cbn [iter_plain iter_auth snd] in Eit.
+        - destruct Hi as [Ha Hcarry].
+          destruct (is_success (dial_outcome xb None)) eqn:Es; inversion Eit; subst; rewrite ?Es; unfold inv; cbn; auto.
+        - assert (Hatt : (if wait s then S (attempt s) else attempt s) = t).
+          { destruct t; destruct Hi as [Hw' Ha]; rewrite Hw'; lia. }
+          destruct (access_result xa) as [f|] eqn:Ea.
+          + assert (Hf : is_success f = false) by (destruct xa; inversion Ea; reflexivity).
+            rewrite Hf. rewrite Hf in Eit. inversion Eit; subst. unfold inv; cbn. rewrite Hatt. auto.
+          + destruct (is_success (dial_outcome xb None)) eqn:Es; inversion Eit; subst; rewrite ?Es; unfold inv; cbn; rewrite ?Hatt; auto. }
+      rewrite (IH (S i) _ s1 carry1 Hnp' Hinv). reflexivity. }
+  specialize (Hgen pre 0%nat 0%nat init 0 Hp (inv_init l c)). cbn [Nat.add] in Hgen. rewrite Hgen.
+  split.
+  - rewrite app_length, spec_length by assumption. cbn. lia.
+  - rewrite nth_error_app2 by (rewrite spec_length by assumption; lia).
+    rewrite spec_length by assumption. rewrite Nat.sub_diag. cbn [nth_error].
+    eexists; split; [reflexivity|]. cbn [ev_out].
+    destruct ab as [a b]. unfold keeps in Hk.
+    assert (Hb : holds b = true).
+    { destruct l; cbn [fst snd] in Hk; [exact Hk|]. destruct (access_result a); [discriminate | exact Hk]. }
+    destruct b; try discriminate. destruct l; reflexivity.
 Qed.
 
 (* ------------------------------------------------------------------ the pumps are FIFO *)
